@@ -273,3 +273,7 @@ func newAccessNode(maxKeys uint64) *accessNode {
 	m.AddMessageHandler(gnosisaccessnode.NewDecryptionKeysHandler(cfg, st))
 	return &accessNode{Msging: m, Storage: st}
 }
+
+func unmarshalP2P(topic string, data []byte) (p2pmsg.Message, *p2pmsg.TraceContext, error) {
+	return p2p.UnmarshalPubsubMessage(pubsubMessage(topic, data))
+}
